@@ -1,10 +1,15 @@
 """Implementation side of unit C19_led: drives the real Reduino.Actuators.Led / RGBLed.
 
 stdin : {"cases": [[cls, ctor_args, [[method, arg, ...], ...]], ...]}   cls in {"Led", "RGBLed"}
-        arguments are plain JSON values (5 / 2.5 / true / null / "abc" / [..] for a pattern)
+        arguments are plain JSON values (5 / 2.5 / true / null / "abc" / [..] for a pattern) or a
+        state-relative argument {"cur": [i, delta, spelling]} (coq/Host/RelArgs.v): channel i of what
+        get_color() returns at that point (Led: get_brightness()) + delta, spelled "int" | "bool"
+        (True/False when the number is 1/0) | "float"; resolved HERE, against the real object
 stdout: per case {"ctor": ["ok", snapshot] | [exc_kind], "ops": [per op
           {"res": "ok"|"ValueError"|"TypeError"|"Other:<name>", "ret": enc, "snap": {attr: enc},
-           "events": [["s", enc] | ["l", [enc, ...]], ...]}]}
+           "events": [["s", enc] | ["l", [enc, ...]], ...],
+           "args": [the concrete arguments the method was called with],
+           "get": {getter name: enc of what the public getter returns after the call}}]}
         enc = ["i", n] | ["f", x] | ["b", bool] | ["n"] | ["t", [enc...]] | ["o", type name]
 
 Sleep is recorded by replacing the package-level Reduino.Actuators.sleep exactly as
@@ -69,6 +74,34 @@ def kind_of(e):
     return n if n in ("ValueError", "TypeError") else "Other:" + n
 
 
+def getters(obj):
+    out = {}
+    names = ("get_state", "get_brightness") if isinstance(obj, Led) else ("get_color", "get_state", "pins")
+    for n in names:
+        try:
+            v = getattr(obj, n)
+            out[n] = enc(v if n == "pins" else v())
+        except Exception as e:  # noqa
+            out[n] = ["o", "raised " + type(e).__name__]
+    return out
+
+
+def resolve(obj, a):
+    """a state-relative argument -> the concrete Python value, read through the public getter"""
+    if isinstance(a, list):
+        return [resolve(obj, e) for e in a]
+    if not (isinstance(a, dict) and "cur" in a):
+        return a
+    i, delta, sp = a["cur"]
+    base = obj.get_brightness() if isinstance(obj, Led) else obj.get_color()[i]
+    v = base + delta
+    if sp == "float":
+        return float(v)
+    if sp == "bool" and v in (0, 1):
+        return bool(v)
+    return v
+
+
 def call(obj, name, args):
     if name == "pins":              # a property
         return obj.pins
@@ -82,11 +115,12 @@ def run_case(case):
         obj = klass(*cargs)
     except Exception as e:  # noqa
         return {"ctor": [kind_of(e)], "ops": []}
-    out = {"ctor": ["ok", snapshot(obj)], "ops": []}
+    out = {"ctor": ["ok", snapshot(obj)], "get0": getters(obj), "ops": []}
     for op in ops:
+        name = op[0]
+        args = [resolve(obj, a) for a in op[1:]]
         del EVENTS[:]
-        name, args = op[0], op[1:]
-        rec = {}
+        rec = {"args": args}
         try:
             r = call(obj, name, args)
             rec["res"] = "ok"
@@ -96,6 +130,7 @@ def run_case(case):
             rec["ret"] = ["n"]
         rec["snap"] = snapshot(obj)
         rec["events"] = list(EVENTS)
+        rec["get"] = getters(obj)
         out["ops"].append(rec)
     return out
 
